@@ -9,6 +9,8 @@ func (s *Scanner) sync(...) {
     s.syncWorkers(ctx, md, events)            //              descriptors whose id the scan did not see leave the set, their
     s.setDescs(md)                            //              workers are told to run until EOF
 }                                             // label open : runWorker → parser.NewParser(File: d.File) opens the PATH
+                                              // label check: (fix 5ccf34b) newWorkerConfig stats the path again and compares
+                                              //              utils.GetFileId with d.Id; different ⇒ parser closed, no worker
 ```
 
 One watched name. A *replacement under the same name* (`replace`: rename away / remove, then create) puts a new inode
@@ -18,7 +20,12 @@ open and drains it: `rotated_file_drained`), several times between two scans, an
 the `open` of one sync. A worker reads the inode it OPENED (by path, at `open`), from `offset0`, under the descriptor
 key the SCAN saw. Truncation in place (same inode) is `Model/Descs.lean`'s subject, not modelled here.
 
-Ghost: `hit` — a replacement fell between a scan and the open that belongs to it.
+`Cfg.checksId` (regenerated: `Generated.C17.workerOpenChecksFileId`): `true` = the code since fix 5ccf34b — `open` only
+takes the inode the parser got (`probe`), `check` starts the worker if the name still shows the descriptor's inode and
+closes the parser otherwise (the descriptor stays, unopened, until the next sync forgets it); `false` = the code before
+— `open` starts the worker at once on whatever the path shows, `check` does nothing (finding F-C17-901).
+
+Ghost: `hit` — a replacement fell between a scan and the end of the sync that belongs to it.
 -/
 namespace Logrange.ScanSync
 
@@ -28,18 +35,23 @@ structure D where
   offset0 : Nat          -- where that worker starts reading (SetStreamPos(desc.getOffset()))
 deriving DecidableEq, Repr
 
+structure Cfg where
+  checksId : Bool
+deriving DecidableEq, Repr
+
 structure W where
   cur : Nat              -- the inode under the watched name now
   next : Nat             -- the next fresh inode number
   scanned : Option Nat   -- scanPaths has seen this inode; mergeDescs has not run yet
   descs : List D         -- the descriptor set (each with its worker)
   retired : List D       -- descriptors that left the set: their workers drain the inode they have open and stop
-  inSync : Bool          -- between a scan and the open of the same sync
+  inSync : Bool          -- between a scan and the end (open, with the id check: check) of the same sync
+  probe : Option Nat     -- checksId: the inode the parser has opened; the id check has not run yet
   hit : Bool             -- ghost: a replacement fell into such a window
 deriving DecidableEq, Repr
 
 /-- a fresh session: inode 0 is under the name, nothing known (no state file) -/
-def init : W := { cur := 0, next := 1, scanned := none, descs := [], retired := [], inSync := false, hit := false }
+def init : W := { cur := 0, next := 1, scanned := none, descs := [], retired := [], inSync := false, probe := none, hit := false }
 
 /-- a session that starts from a state file: the name's inode `0` is known with offset `off` -/
 def initWith (off : Nat) : W :=
@@ -50,11 +62,17 @@ inductive L where
   | scan
   | merge
   | open
+  | check
 deriving DecidableEq, Repr
 
-def step (w : W) : L → W
+def startOn (i : Nat) (d : D) : D :=
+  match d.opened with
+  | none => { d with opened := some i }
+  | some _ => d
+
+def step (c : Cfg) (w : W) : L → W
   | .replace => { w with cur := w.next, next := w.next + 1, hit := w.hit || w.inSync }
-  | .scan => { w with scanned := some w.cur, inSync := true }
+  | .scan => { w with scanned := some w.cur, inSync := true, probe := none }
   | .merge =>
     match w.scanned with
     | none => w
@@ -65,22 +83,27 @@ def step (w : W) : L → W
                descs := if kept.isEmpty then [{ key := i, opened := none, offset0 := 0 }] else kept,
                retired := w.retired ++ gone }
   | .open =>
-    -- only as the last step of a sync (after its merge)
-    if w.inSync && w.scanned.isNone then
-      { w with descs := w.descs.map (fun d => match d.opened with
-                                              | none => { d with opened := some w.cur }
-                                              | some _ => d),
-               inSync := false }
+    -- only after the merge of the same sync
+    if w.inSync && w.scanned.isNone && w.probe.isNone then
+      if c.checksId then { w with probe := some w.cur }
+      else { w with descs := w.descs.map (startOn w.cur), inSync := false }
     else w
+  | .check =>
+    match w.probe with
+    | none => w
+    | some x =>
+      -- os.Stat(d.File) now: the name shows `w.cur`
+      { w with probe := none, inSync := false,
+               descs := w.descs.map (fun d => if d.key == w.cur then startOn x d else d) }
 
-def run (w : W) : List L → W
+def run (c : Cfg) (w : W) : List L → W
   | [] => w
-  | l :: ls => run (step w l) ls
+  | l :: ls => run c (step c w l) ls
 
 /-- every worker that exists or existed -/
 def workers (w : W) : List D := w.descs ++ w.retired
 
 /-- one complete sync -/
-def sync : List L := [.scan, .merge, .open]
+def sync : List L := [.scan, .merge, .open, .check]
 
 end Logrange.ScanSync
